@@ -221,6 +221,8 @@ def vertical_shift_impl(
 
     def check_row(row: int):
         num_rows = spec.get_int_constant(constant_id="logical_rows")
+        assert row >= 0, "row index must be non-negative"
+        assert row < num_rows, "row index must be less than `logical_rows`"
         assert (
             row + offset < num_rows
         ), "row index + offset must be less than `logical_rows`"
@@ -244,7 +246,11 @@ def vertical_shift_impl(
 
     shifts = calc_vertical_shifts(offset)
 
-    move_by_shift(start_pos, shifts, all_cols, src_rows)
+    def relative_row(row: int):
+        # `src_rows` are rows of the block, `start_pos` starts at row `row_start`
+        return row - row_start
+
+    move_by_shift(start_pos, shifts, all_cols, ilist.map(relative_row, src_rows))
 
 
 @move
@@ -261,8 +267,16 @@ def vertical_shift(
         src_rows (ilist.IList[int, Any]): The list of source row indices.
     """
 
+    # the moved grid has one row per row that can be shifted by `offset` inside the
+    # block; `src_rows` selects among those tones.
+    num_rows = spec.get_int_constant(constant_id="logical_rows")
+    if offset > 0:
+        num_rows = num_rows - offset
+    else:
+        num_rows = num_rows + offset
+
     x_tones = ilist.range(spec.get_int_constant(constant_id="code_size"))
-    y_tones = ilist.range(len(src_rows))
+    y_tones = ilist.range(num_rows)
 
     device_fn = schedule.device_fn(vertical_shift_impl, x_tones, y_tones)
     device_fn(offset, src_col, src_rows)
